@@ -287,8 +287,9 @@ func c06Run(r *vlib.Run, c c06Case) {
 	if c06Pre != nil {
 		c06Pre()
 	}
+	inBlob, inArg := append([]byte(nil), blob...), append([]byte(nil), arg...)
 	pnk, msg, site := vlib.Guard(func() {
-		code, regs, mem, er = SingleInitializer(append([]byte(nil), blob...), append([]byte(nil), arg...))
+		code, regs, mem, er = SingleInitializer(inBlob, inArg)
 	})
 	r.Transition()
 	r.Eval()
@@ -436,21 +437,79 @@ func c06Run(r *vlib.Run, c c06Case) {
 		bad("heap-window-overlaps-stack", "heap", fmt.Sprintf("pointer %#x limit %#x stack starts %#x", mem.heapPointer, mem.heapLimit, ref.stackLo))
 	}
 	if c06WantDigest {
-		h := fnv.New64a()
-		for _, k := range keys {
-			p := mem.Pages[k]
-			if p == nil || p.Access == MemoryInaccessible {
-				continue
-			}
-			fmt.Fprintf(h, "%d:%d:", k, p.Access)
-			h.Write(p.Value)
+		c06LastDigest = c06Digest(&mem, regs)
+	}
+	// ownership: the initial memory must not share storage with the blob, the argument or another
+	// machine initialised from the same bytes (otherwise the next initialisation from these bytes is
+	// no longer the GP map). Done for layouts of at most 600 pages (the 16 MiB stacks add nothing here).
+	if len(mem.Pages) <= 600 && c.Fam != "malformed" {
+		d1 := c06Digest(&mem, regs)
+		var regs2, regs3 Registers
+		var mem2, mem3 Memory
+		var er2, er3 ExitReason
+		p2, m2msg, s2 := vlib.Guard(func() { _, regs2, mem2, er2 = SingleInitializer(inBlob, inArg) })
+		r.Transition()
+		if p2 || er2 != ExitContinue {
+			bad("second-initialisation-fails", "same-blob", fmt.Sprintf("panic=%v %s %s exit=%v", p2, m2msg, s2, er2))
+			return
 		}
-		fmt.Fprintf(h, "regs%v hp%d hl%d", regs, mem.heapPointer, mem.heapLimit)
-		c06LastDigest = h.Sum64()
+		if c06Digest(&mem2, regs2) != d1 {
+			bad("same-input-different-page-map", "second-machine", "two initialisations from the same blob differ")
+			return
+		}
+		// a guest store into every writable page of the first machine
+		for _, k := range keys {
+			if p := mem.Pages[k]; p != nil && p.Access == MemoryReadWrite && len(p.Value) == ZP {
+				p.Value[0] ^= 0xFF
+				p.Value[ZP/2] ^= 0xFF
+				p.Value[ZP-1] ^= 0xFF
+			}
+		}
+		if !bytes.Equal(inBlob, blob) {
+			i := 0
+			for inBlob[i] == blob[i] {
+				i++
+			}
+			bad("input-modified-through-initial-memory", "blob", fmt.Sprintf("a store into a writable page of the initial memory changed byte %d of the program blob", i))
+		}
+		if !bytes.Equal(inArg, arg) {
+			bad("input-modified-through-initial-memory", "argument", "a store into a writable page of the initial memory changed the argument bytes")
+		}
+		if c06Digest(&mem2, regs2) != d1 {
+			bad("machines-share-pages", "second-machine", "a store in one machine is visible in another machine initialised from the same blob")
+		}
+		p3, m3msg, s3 := vlib.Guard(func() { _, regs3, mem3, er3 = SingleInitializer(inBlob, inArg) })
+		r.Transition()
+		if p3 || er3 != ExitContinue {
+			bad("second-initialisation-fails", "after-store", fmt.Sprintf("panic=%v %s %s exit=%v", p3, m3msg, s3, er3))
+		} else if c06Digest(&mem3, regs3) != d1 {
+			bad("reinitialisation-differs-from-gp-map", "after-store", "initialising again from the same blob object after a guest store gives a different page map")
+		}
 	}
 	if r.WantSample() && c.Fam == "size" && c.O == 4097 && c.A == 1 {
 		r.Sample(map[string]interface{}{"case": c, "pages": len(mem.Pages), "heap_pointer": mem.heapPointer, "heap_limit": mem.heapLimit})
 	}
+}
+
+// c06Digest: digest of everything a guest can observe of an initial state (accessible pages with access
+// and contents, registers, sbrk window).
+func c06Digest(mem *Memory, regs Registers) uint64 {
+	keys := make([]uint32, 0, len(mem.Pages))
+	for k := range mem.Pages {
+		keys = append(keys, k)
+	}
+	sort.Slice(keys, func(i, j int) bool { return keys[i] < keys[j] })
+	h := fnv.New64a()
+	for _, k := range keys {
+		p := mem.Pages[k]
+		if p == nil || p.Access == MemoryInaccessible {
+			continue
+		}
+		fmt.Fprintf(h, "%d:%d:", k, p.Access)
+		h.Write(p.Value)
+	}
+	fmt.Fprintf(h, "regs%v hp%d hl%d", regs, mem.heapPointer, mem.heapLimit)
+	return h.Sum64()
 }
 
 // ---- re-entry: hidden process-level state between invocations -----------------------------------
@@ -691,7 +750,8 @@ func TestVerif_C06(t *testing.T) {
 			for _, z := range zs {
 				for _, s := range ss {
 					for _, a := range as {
-						if z == 65535 && !((s == 0 || s == 4097 || s == 1<<24-1) && (a == 0 || a == 1 || a == 4097)) {
+						if z == 65535 && !((s == 0 || s == 4097 || s == 1<<24-1) && (a == 0 || a == 1 || a == 4097) &&
+							(o == 0 || o == 1 || o == 65537) && (w == 0 || w == 1 || w == 65537)) {
 							continue // 256 MiB layouts: reduced s/|a| sub-lattice (the zones are independent)
 						}
 						idx++
